@@ -98,7 +98,7 @@ def compare_summaries(a, b, perm=None, exact=False, rtol=1e-9, atol=1e-9):
         diffs.append(("params", "different transform objects"))
     else:
         for (n1, v1), (_, v2) in zip(pa, pb):
-            ok = np.array_equal(v1, v2) if exact else np.allclose(v1, v2, rtol=1e-9, atol=1e-12)
+            ok = np.array_equal(v1, v2) if exact else np.allclose(v1, v2, rtol=1e-9, atol=1e-9)
             if not ok:
                 diffs.append(("params", f"{n1}: {v1[:4]} vs {v2[:4]}"))
     return diffs
